@@ -115,7 +115,7 @@ def exec_generic(prop, desc):
 
 # ---- C03 -------------------------------------------------------------------
 def gen_c03(seed, tier):
-    if seed % 5 == 0:
+    if seed % 7 in (0, 3):
         desc, rng = gen_history(seed, tier, n_ops=(2, 5), allow=("run", "update", "update", "delete", "fresh"),
                                 genkw=STRESS_GENKW)
         if seed % 2:
